@@ -52,6 +52,9 @@ MSize(h, g)                  == h \in SArgs /\ g \in OArgsOf(h) /\ "attr" \in Ac
 MUse(h, g, f)                == h \in SArgs /\ g \in OArgsOf(h) /\ "use" \in Acts /\ UseObject(h, g, f, TRUE)
 MMake(h, how, tokobj, pr, lab) == h \in SArgs /\ "make" \in Acts /\ CanH /\ CanO
                                 /\ MakeKey(h, how, NextO, tokobj, pr, lab, NextH, TRUE)
+\* the same calls with a template that is refused only while the object is being built (after the access checks)
+MMakeFail(h, how, tokobj, pr, lab) == h \in SArgs /\ "makefail" \in Acts
+                                /\ MakeKey(h, how, NextO, tokobj, pr, lab, NextH, FALSE)
 MMakePair(h, tokobj, pr, lab) == h \in SArgs /\ "make" \in Acts /\ NextH + 1 <= MaxH /\ NextO + 1 <= MaxO
                                 /\ MakePair(h, NextO, NextO + 1, tokobj, pr, lab, NextH, NextH + 1, TRUE)
 MFindAll(h, tmpl)            == h \in SArgs /\ "find" \in Acts /\ NextH + Cardinality(Need(h, tmpl)) <= MaxH + 1
@@ -88,6 +91,7 @@ Next ==
     \/ \E h \in HS, g \in HS, lab \in Labels : MSetAttr(h, g, lab)
     \/ \E h \in HS, g \in HS, f \in UseKinds : MUse(h, g, f)
     \/ \E h \in HS, how \in MakeKinds, tokobj \in BOOLEAN, pr \in BOOLEAN, lab \in Labels : MMake(h, how, tokobj, pr, lab)
+    \/ \E h \in HS, how \in MakeKinds, tokobj \in BOOLEAN, pr \in BOOLEAN, lab \in Labels : MMakeFail(h, how, tokobj, pr, lab)
     \/ \E h \in HS, tokobj \in BOOLEAN, pr \in BOOLEAN, lab \in Labels : MMakePair(h, tokobj, pr, lab)
     \/ \E h \in HS, tmpl \in TArgs : MFindAll(h, tmpl)
     \/ \E h \in HS, tmpl \in TArgs : MFindInit(h, tmpl)
